@@ -74,7 +74,7 @@ PROPS["C05"] = {
 PROPS["C18"] = {
     "engine": "wdsim", "level": "exploration", "race": True, "vary_gomaxprocs": True,
     "quick": {"max_runs": 100000000, "budget_s": 50, "recheck": 20, "calibration_runs": 32},
-    "thorough": {"max_runs": 1000000000, "budget_s": 900, "recheck": 40, "calibration_runs": 64},
+    "thorough": {"max_runs": 1000000000, "budget_s": 900, "round_s": 75, "recheck": 40, "calibration_runs": 64},
     "rule": "one evaluation = one seeded run of one of two profiles, built with -race. (1) concurrent: 2-6 caller tasks x 3-20 operations (all webdav.Client methods and raw requests) on disjoint subtrees of ONE shared webdav.Handler{LocalFileSystem} and ONE shared webdav.Client; a seeded scheduler (unique fake wake-up instants at every seam: transport entry/return, each body chunk, each disk call, each caller step) decides every interleaving; oracle: per-task observations and final subtree == the task's solo run, no race report with a library frame; a calibration probe (deliberately racy word) must be reported in >= 80% of dedicated runs. (2) upload: Create/Write.../Close against a scripted or the real server: server reads k bytes then answers 2xx/3xx/4xx/5xx, drops or stalls; body closed before return or asynchronously; cancellation/deadline before Create, during the upload, while stalled, or never; oracle: Write/Close return, Close after the outcome, nil iff 2xx else the failure (status via errors.As, DAV:error kept, transport/context error wrapped), no library goroutine left, bytes intact. Non-trivial and distinct = distinct cross-task seam orders (profile 1) plus distinct (fault class, size bucket, chunking) upload cases (profile 2).",
     "real_vs_stub": {
         "real": ["webdav.Client (shared), its upload goroutine, io.Pipe and completion channel", "net/http.Client above the simulated RoundTripper", "webdav.Handler (shared), LocalFileSystem on tmpfs", "Go race detector on all of the above"],
